@@ -161,6 +161,9 @@ def run(ctx):
             label = "%s|chem%d|shell%d" % (name, chem, s.shell)
             for rep in range(nrep):
                 d = calc.interstitial_data(s, rng, 0, 2 if rep % 2 == 0 else 4)
+                if rep % 4 == 3:
+                    # realistic absolute barriers: every rate of order 2^-40 ~ 1e-12 (derivatives scale exactly)
+                    d["eneTL"] = [e + 40 for e in d["eneTL"]]
                 args = calc.interstitial_args(d)
                 pre, be, preT, beT = args
                 dipL = [hp.int_dipole(rng, dim) for _ in range(s.Nsite)]
